@@ -656,3 +656,46 @@ func BranchesOnNil(v ssa.Value) []NilBranch {
 	}
 	return out
 }
+
+// LoopCarriedCell reports whether a is a local cell that lives across the iterations of a
+// loop: allocated outside any loop but assigned inside one (e.g. the iteration variable of a
+// `for … range` under pre-1.22 loop-variable semantics, which go/ssa follows from go.mod's
+// language version). The address of such a cell, or a closure capturing it, must not
+// outlive the iteration.
+func LoopCarriedCell(a *ssa.Alloc) bool {
+	if a == nil || InLoop(a.Block()) || a.Referrers() == nil {
+		return false
+	}
+	for _, r := range *a.Referrers() {
+		if st, ok := r.(*ssa.Store); ok && st.Addr == ssa.Value(a) && InLoop(st.Block()) {
+			return true
+		}
+	}
+	return false
+}
+
+// GoCapturesOfLoopCells returns the `go` statements of fn, located in a loop, whose
+// function value is a closure capturing a loop-carried cell (the goroutine may run after the
+// cell was overwritten by a later iteration).
+func GoCapturesOfLoopCells(fn *ssa.Function) []*ssa.Go {
+	var out []*ssa.Go
+	for _, b := range fn.Blocks {
+		for _, ins := range b.Instrs {
+			g, ok := ins.(*ssa.Go)
+			if !ok || !InLoop(b) {
+				continue
+			}
+			mc, ok := g.Call.Value.(*ssa.MakeClosure)
+			if !ok {
+				continue
+			}
+			for _, bd := range mc.Bindings {
+				if a, ok := bd.(*ssa.Alloc); ok && LoopCarriedCell(a) {
+					out = append(out, g)
+					break
+				}
+			}
+		}
+	}
+	return out
+}
